@@ -77,7 +77,7 @@ def describe(fl):
     return " ".join(parts)
 
 
-def run_v_units(units, tier, seed):
+def run_v_units(units, tier, seed, pid=None, kfs=()):
     out = {}
     with cf.ThreadPoolExecutor(max_workers=8) as ex:
         futs = {ex.submit(verus_run.run_unit, u, None, None, None): u for u in units}
@@ -85,7 +85,14 @@ def run_v_units(units, tier, seed):
             out[futs[fu]] = fu.result()
     # stability guard: anything that failed is re-run with another solver seed and a larger resource limit
     confirm = {}
-    todo = [u for u, r in out.items() if r.status == "failures" or (r.status == "undecided" and "resource" in r.reason)]
+    def needs_confirm(u, r):
+        if r.status == "undecided":
+            return "resource" in r.reason
+        if r.status != "failures":
+            return False
+        serves = getattr(verus_run.load_unit(u), "SERVES", [])
+        return any(relevant(fl, pid, serves) and not match_kf(fl, u, pid, kfs) for fl in r.failures)
+    todo = [u for u, r in out.items() if needs_confirm(u, r)]
     extra_seeds = [seed + 1] if tier == "quick" else [seed + 1, seed + 2]
     if tier == "thorough":
         todo = list(units)
@@ -122,7 +129,7 @@ def main():
     os.makedirs(os.path.join(VERIF, "replays"), exist_ok=True)
 
     v_units = P.get("v_units", [])
-    results, confirm = run_v_units(v_units, tier, seed)
+    results, confirm = run_v_units(v_units, tier, seed, pid, kfs)
     k_result = None
     if P.get("k_harnesses"):
         import kani_run
